@@ -119,6 +119,14 @@ def main(argv):
             open_units[i] = open_units.get(i, 0) + 1
         while futs:
             done, _ = cf.wait(list(futs), return_when=cf.FIRST_COMPLETED)
+            if time.time() > deadline:
+                # the budget is a real bound: units that have not been started yet are not started any more
+                # (they are listed as unfinished, and the run is not exhaustive)
+                for f in list(futs):
+                    if f not in done and f.cancel():
+                        i = futs.pop(f)
+                        open_units[i] -= 1
+                        unfinished.append({'unit': units[i], 'not_started': True})
             for f in done:
                 i = futs.pop(f)
                 open_units[i] -= 1
